@@ -9,7 +9,8 @@
 (* failure that is not one of the documented benign races must fail the sync.            *)
 EXTENDS Integers, Sequences, FiniteSets, TLC, Json
 
-CONSTANTS Bases,     \* subset of {"compInPlace", "compRecreate", "decorator"}
+CONSTANTS Bases,     \* subset of {"compInPlace", "compRecreate", "compRolling", "decorator"}  (compRolling: the child kind
+                     \* is updated RollingRecreate, so the sync goes through ControllerRevisions and per-revision hook calls)
           Codes,     \* subset of {404, 409, 410, 422, 500, 0}      (0 = transport error / timeout)
           HookCodes, \* subset of {500, 429, 0, 404}
           Pairs      \* BOOLEAN: also enumerate pairs of faults
@@ -27,8 +28,9 @@ Targets(b) ==
         T("get", "Thing", "b", 1), T("update", "Thing", "b", 1),              \* adoption
         T("get", "Thing", "c", 1), T("update", "Thing", "c", 1),              \* release
         T("delete", "Thing", "e", 1), T("create", "Thing", "a", 1),
-        T(IF b = "compRecreate" THEN "delete" ELSE "update", "Thing", "d", 1),
+        T(IF b = "compInPlace" THEN "update" ELSE "delete", "Thing", "d", 1),
         T("get", "Parent", "p", 3), T("updateStatus", "Parent", "p", 1)}
+       \cup (IF b = "compRolling" THEN {T("create", "ControllerRevision", "", 1)} ELSE {})
 
 \* ---- the statement's rule ---------------------------------------------------------------
 \* documented benign races: object already gone (404), already exists on create (409 on create),
@@ -44,7 +46,7 @@ CodeErr(b, t, c) ==
     [] c = 404 -> \/ (b # "decorator" /\ t.kind = "Parent" /\ t.verb \in {"get", "update"} /\ t.nth < 3)   \* finalizer sync / recheck cannot proceed
                   \/ (b = "decorator" /\ t.kind = "Parent" /\ (t.verb = "get" \/ (t.verb = "update" /\ t.nth = 1)))
                   \/ t.verb = "create"
-    [] c = 409 -> t.verb = "delete"
+    [] c = 409 -> t.verb = "delete" \/ t.kind = "ControllerRevision"   \* a revision write that fails aborts the sync, whatever the reason
     [] c = 410 -> ~(t.kind = "Thing" /\ t.name = "c")          \* only the release path tolerates Gone
     [] OTHER   -> TRUE
 HookErr(c) == c # 200          \* any hook failure fails the sync ...
